@@ -264,6 +264,7 @@ func (e *Engine) fireTimer(st *State, i int) {
 	t.Armed = false
 	st.Timers[i] = t
 	st.Events = append(st.Events, Event{Kind: "timer-fired", Args: []Value{BVC(uint64(t.ID), 64)}})
+	st.Nondets = append(st.Nondets, NondetRec{Src: "o", Tag: "timer:" + t.Kind, Kind: "choice"})
 	if t.ArmClock != nil && t.Dur != nil && !e.Cfg.ConcreteClock {
 		// clock consistency: from now on time.Now() is later than arm time + duration
 		n := e.now(st)
